@@ -162,6 +162,18 @@ def build_input(rng, kind, kind2=None):
             term = term * t2 * NonSymmetricTensor("g2", tuple(get_symbols(n2)))
         e = Expr(term, real=True, target_idx=T)
         return e, f"product:{name}"
+    if kind == "square":
+        # an intermediate raised to the second power (all its indices are target indices): each
+        # factor of the expansion needs its own contracted indices
+        name = rng.choice(["t2_1", "t1_2", "p0_2_oo", "p0_2_vv", "t2eri_3", "t2eri_4", "t2sq"])
+        it = avail[name]
+        pool_o, pool_v = list("ijklmn"), list("abcdef")
+        rng.shuffle(pool_o)
+        rng.shuffle(pool_v)
+        names = [pool_o.pop() if x in "ijklmno" else pool_v.pop() for x in it.default_idx]
+        tens = it.tensor(indices=names, return_sympy=True)
+        e = Expr(tens ** 2 * rng.choice([1, Rational(1, 2), -1]), real=True, target_idx=get_symbols(names))
+        return e, f"square:{name}"
     if kind == "long":
         # a long intermediate (several terms) times an ERI with shared indices, like the
         # repository's own factorisation tests; used with rescaled terms (mixed prefactors)
@@ -315,6 +327,8 @@ def main():
         items.append(("lib", ["expand", "factor", "reduce"][k % 3], base + 5000 + k))
     for k in range(24 if quick else 300):
         items.append(("long", "factor", base + 7000 + k))
+    for k in range(8 if quick else 60):
+        items.append(("square", ["expand", "reduce"][k % 2], base + 8000 + k))
     results = pmap(run_case, items, limit=90 if quick else 1200, workers=15)
     for r in results:
         if r.get("status") == "timeout":
